@@ -389,7 +389,7 @@ PROPS.update({
     "C16": {
         "theorem_modules": ["FlacVerif.Theorems.C16crc", "FlacVerif.Theorems.C16", "FlacVerif.Theorems.C02Gen", "FlacVerif.Theorems.C02Hdr", "FlacVerif.Theorems.C15Gen"], "uses_gen": ["tables", "headers", "writer", "decode"],
         "streams": {"quick": [("parser", ["--cases", 14, "--burst-stride", 40, "--random", 1500])],
-                    "thorough": [("parser", ["--cases", 30, "--burst-stride", 3, "--random", 60000])],
+                    "thorough": [("parser", ["--cases", 24, "--burst-stride", 4, "--random", 30000])],
                     "search": [("parser", ["--cases", 30, "--burst-stride", 4, "--random", 20000])]},
         "profiles": {"quick": ["release", "dev"], "thorough": ["release", "dev"]},
         "diff_prefix": ["c16."], "oracle_fields": ["o_c16"], "rule": PARSER_RULE,
